@@ -5,7 +5,8 @@ from vlib.diff import Case, differential
 
 LEVEL = "proof"
 # C functions this check's models mirror (source-text fingerprints are recorded in the evidence, see translate/funchash.py)
-MODELLED_FUNCS = {'src/fs/iwexfile.c': ['_exfile_write', '_exfile_read', '_exfile_copy', '_exfile_ensure_size_lw', '_exfile_truncate_lw', '_exfile_initmmap_slot_lw', '_exfile_add_mmap', '_exfile_remove_mmap', 'iw_exfile_szpolicy_fibo', 'iw_exfile_szpolicy_mul']}
+MODELLED_FUNCS = {'src/fs/iwexfile.c': ['_exfile_write', '_exfile_read', '_exfile_copy', '_exfile_ensure_size_lw', '_exfile_truncate_lw', '_exfile_initmmap_slot_lw', '_exfile_add_mmap', '_exfile_remove_mmap', 'iw_exfile_szpolicy_fibo', 'iw_exfile_szpolicy_mul', '_exfile_close'],
+                  'src/fs/iwfile.c': ['_iwfs_write', '_iwfs_copy', '_iwfs_sync']}
 MANIFEST = dict(
     level="proof",
     text=("Lean 4 theorems over an executable model of iwexfile.c (request splitting between mapped windows and the file, "
@@ -15,11 +16,19 @@ MANIFEST = dict(
           "equal to the physical size unless a copy went beyond it (characterised exactly, as is the size the next open sees); ensure_size reaches every "
           "request maxoff admits and the growth sequences of all policies are monotone, aligned and bounded by maxoff; with any number of private "
           "windows every history refines a two-layer reference (file array + per-window copy-on-write pages), a write is always read back, "
-          "and a later read differs from the flat array exactly under the stated remap/remove/file-copy condition. The model is tied to the code "
-          "by a differential run of the real IWFS_EXT (ASan/UBSan build) against the compiled Lean model, with a flat shadow array as oracle"),
+          "and a later read differs from the flat array exactly under the stated remap/remove/file-copy condition. Data listener (iwdlsnr.h): the model "
+          "returns, per call, the listener calls the code makes (onresize / onwrite per piece / oncopy, passive listener or one that resizes itself "
+          "as the WAL does); replaying them on a copy of the old file gives exactly the new file and size for every call and history with shared "
+          "windows (listener completeness), every event fits the size the listener was told, with private windows the replay is the flat "
+          "expectation and agrees with a read exactly where the call does not diverge; a store through acquire_mmap is not reported (stated). "
+          "The model is tied to the code by a differential run of the real IWFS_EXT (ASan/UBSan build) against the compiled Lean model, with a "
+          "flat shadow array as oracle and, for the listener, a recording IWDLSNR in the harness whose calls are compared line by line with the "
+          "model's and replayed by an independent python oracle against the file (page hashes through read and through a pread of its own)"),
     note=("trusted: Lean kernel, translator, harness/generator, gcc+ASan/UBSan, Linux coherence of MAP_SHARED mappings with pread/pwrite and "
           "page-granular copy-on-write of MAP_PRIVATE; modelled not verified: the C control flow of iwexfile.c/iwfile.c/iwp_copy_bytes; "
-          "no data listener (dlsnr), single thread, offsets < 2^62; models the tree with the F29 fix"),
+          "listener callbacks that fail are not modelled (the recording listener always returns 0), onopen is never called by the code, "
+          "the WAL's checkpoint/rollforward (remap shared, apply, remap private) is not modelled; single thread, offsets < 2^62; "
+          "models the tree with the F29 fix and the fix of the window-relative onwrite offset (C12-LSNOFF)"),
     technique="Lean 4 proof over executable model + differential correspondence (C harness vs compiled Lean driver) + flat shadow oracle")
 MODULE = "IwModel.Props.C12"
 THEOREMS = [
@@ -950,13 +959,15 @@ def build(ctx):
 def run(ctx):
     ctx.cov["rule"] = ("a case is one life of a file: open (policy default/fibonacci/multiplier, maxoff, initial size), a window layout "
                        "(none / 1-3 partial windows / whole file, shared or private), 30-120 operations (write, read, copy, truncate, "
-                       "ensure_size, add/remove window, store through an acquired mapping, probe/sync) whose offsets and lengths are aimed "
+                       "ensure_size, add/remove window, store through an acquired mapping (reported to the listener by the caller or not), probe/sync; "
+                       "in the listener stream every line carries the recorded listener calls and rx/fx page hashes are taken mid-way and at the end) whose offsets and lengths are aimed "
                        "at window starts/ends, the end of the file and page edges +-{0,1,2,7,13,..}, final full read, close, often a re-open; "
                        "evaluations = operation lines run on implementation and model; distinct = distinct case text")
-    ctx.assumptions += ["no data listener (dlsnr) is attached; single thread (use_locks on)",
+    ctx.assumptions += ["single thread (use_locks on); the data listener of the `listener` stream records and returns 0 (mode 1), or "
+                        "additionally answers handled=true and resizes with truncate_unsafe (mode 2); all other streams run without a listener",
                         "file sizes stay below 1.3 MB, offsets below 2^62",
                         "Linux: MAP_SHARED windows are coherent with pread/pwrite; MAP_PRIVATE pages are copied page-wise on first store",
-                        "tree modelled: /repo + fix of F29 (_exfile_copy window test)"]
+                        "tree modelled: /repo + fix of F29 (_exfile_copy window test) + fix of C12-LSNOFF (onwrite offset of a window piece)"]
     ctx.translate()
     ok, drv_ok = ctx.prove(MODULE, THEOREMS)
     h = build(ctx)
